@@ -9,6 +9,7 @@ ASSUMPTIONS = [
     "the reference (harness/treeref.py) recomputes U, B, thresholds and the admissible refresh epochs from the harness' own ledger of (cell, reward) pairs; the implementation's stored u/b values are proved equal to it (|diff| <= 1e-9) on every path",
     "parameter tuples satisfy c1*delta <= 1/2 so that the two clamps of delta~ used by the code coincide with the published one (DESIGN §5a.3)",
     "at rounds crossing a power of two the published pseudo-code and the implementation order 'refresh' and 'increment t' differently; both epochs are admitted (DESIGN §5a.2); ties between sibling B-values may be broken either way",
+    "t+ = smallest power of two >= t is compared with the code's compute_t_plus for every t up to 2^17 (thorough 2^22) by plain evaluation (a one-argument integer function; compute_t_plus(2^29) = 2^30 is a known rounding effect outside this range)",
     "kernel configurations: compute_u_value / compute_tau_hi_value of the three node classes on a directly constructed node (depth 0..4, 1..3 symbolic rewards) with SYMBOLIC nu>0, 0<rho<1, c>0, 0<delta~<=1/2, bound>0, rounds>=2: sqrt exact, log uninterpreted and shared by both sides (QF_UFNRA)",
     "confidence widths are concrete on a path (counts and parameters are concrete) and computed by libm; VHCT's variance-dependent widths/thresholds are symbolic (sqrt exact, QF_NRA)",
 ]
@@ -60,6 +61,15 @@ def configs(tier, seed, prefix="index"):
                     pre = dict({"P": P, "k": k, "seed": sd, "peak": (0.3, 0.8, 0.55, 0.1)[sd], "noise": 0.25}, **extra)
                     out.append({"name": "%s-%s-%s-d1-P%d+%d-s%d" % (prefix, algo, part, P, k, sd), "algo": algo, "part": part, "d": 1, "T": P + k,
                                 "params": GRID[algo][1] if (algo == "HCT" and sd in (1, 2)) else {}, "prefix": pre, "cost": P * 4 * (5 if algo == "VHCT" else 1)})
+    # across the doubling epoch at round 512/513 (HCT, VHCT) and 1024/1025 (thorough): t+ and with it every threshold and
+    # confidence width change there; the 511 (1023) concrete rounds before are checked like any other round (seed S-C05-6)
+    for algo, P, k in (("HCT", 511, 3), ("VHCT", 512, 1)) + ((("HCT", 1023, 3), ("VHCT", 1024, 1)) if q else ()):
+        pre = {"P": P, "k": k, "seed": 0, "peak": 0.3, "noise": 0.25}
+        out.append({"name": "%s-%s-B-d1-P%d+%d-s0" % (prefix, algo, P, k), "algo": algo, "part": "B", "d": 1, "T": P + k, "params": {}, "prefix": pre, "cost": P * 4})
+    # t+ (the smallest power of two >= t) for every round number up to 2^17 (thorough 2^22): a function of the round counter
+    # alone, the same for every parameter setting, on which every threshold and confidence width of HCT / VHCT depends
+    for algo in ("HCT", "VHCT"):
+        out.append({"name": "%s-tplus-%s-t1..2^%d" % (prefix, algo, 17 if q == 0 else 22), "mode": "tplus", "algo": algo, "top": 2 ** (17 if q == 0 else 22), "part": "B", "d": 1, "T": 0, "cost": 5})
     if prefix == "index":
         for algo in ("T_HOO", "HCT", "VHCT"):
             for h in (0, 1, 2, 3, 4):
@@ -142,9 +152,26 @@ def run_kernel(ctx, cfg):
         ctx.fail("kernel:tau", "threshold is not a ceiling: %r" % (tau,))
 
 
+def run_tplus(ctx, cfg):
+    from harness.common import mods
+    f = mods()[cfg["algo"]].compute_t_plus
+    bad = []
+    for x in range(1, cfg["top"] + 1):
+        want = 1 << (x - 1).bit_length()
+        got = f(x)
+        if got != want:
+            bad.append((x, float(got), want))
+            if len(bad) > 5:
+                break
+    ctx.check("kernel:t_plus", not bad, "compute_t_plus(t) is not the smallest power of two >= t for t in %s (t, got, expected)" % (bad[:5],))
+    ctx.count("sym:tplus_sweep")
+
+
 def run(ctx, cfg):
     if cfg.get("mode") == "kernel":
         return run_kernel(ctx, cfg)
+    if cfg.get("mode") == "tplus":
+        return run_tplus(ctx, cfg)
     ref = TreeRef(**WHICH)
     algo, dom, rs, lp = drive(ctx, cfg, [ref], last_point=False)
     if cfg.get("twin"):
